@@ -139,9 +139,16 @@ def make_program(rng, refl, n_points):
     return prog, table
 
 
-def run_visit(root, refl, table, record=True):
+_TI_SCHEMA = None
+
+
+def run_visit(root, refl, table, record=True, via=0):
+    """via: 0 plain visit(); 1 the documented aliases instead of the enum members (False = SKIP, True = BREAK, Ellipsis = REMOVE);
+    2 the scripted visitor wrapped in TypeInfoVisitor (which must hand every decision through); 3 both"""
     from graphql.language import visit, Visitor, BREAK, SKIP, REMOVE, Node
     log = []
+    if via & 1:
+        SKIP, BREAK, REMOVE = False, True, Ellipsis     # noqa: N806
 
     class Scripted(Visitor):
         def decide(self, ph, node, key, parent, path, ancestors):
@@ -164,8 +171,16 @@ def run_visit(root, refl, table, record=True):
             return self.decide("leave", node, key, parent, path, ancestors)
     raised = ""
     result = None
+    visitor = Scripted()
+    if via & 2:
+        global _TI_SCHEMA
+        from graphql import build_schema
+        from graphql.utilities import TypeInfo, TypeInfoVisitor
+        if _TI_SCHEMA is None:
+            _TI_SCHEMA = build_schema("type Query { a: Int, b(x: Int): Query, c: [Query] }")
+        visitor = TypeInfoVisitor(TypeInfo(_TI_SCHEMA), visitor)
     try:
-        result = visit(root, Scripted())
+        result = visit(root, visitor)
     except Exception as e:  # noqa: BLE001
         raised = type(e).__name__
     return log, result, raised
@@ -195,7 +210,8 @@ def _chunk(jobs):
         for trial in range(4):
             npts = rng.choice([0, 1, 1, 2, 2, 3])
             prog, table = make_program(rng, refl, npts)
-            log, result, raised = run_visit(root, refl, table)
+            via = rng.choice([0, 0, 1, 2, 3])
+            log, result, raised = run_visit(root, refl, table, via=via)
             broke = any(table.get((e["ph"], e["id"]), ("",))[0] == "break" for e in log[-1:])
             if raised:
                 outcome, shape = "raised", {"id": 0, "fields": []}
